@@ -54,6 +54,23 @@ mut("c04_drop_param_for_class", "C04", "armi/bookkeeping/db/database.py",
 mut("c04_linked_dim_lost", "C04", "armi/bookkeeping/db/database.py",
     '                    if linkedDim != "":\n                        c.p[paramName] = linkedDim\n', '                    if linkedDim != "" and paramName != "mult":\n                        c.p[paramName] = linkedDim\n')
 
+# ---- C05
+mut("c05_int_sentinel_wrong_on_read", "C05", "armi/bookkeeping/db/layout.py",
+    "        isNone = data == np.iinfo(data.dtype).min + 2\n", "        isNone = data == np.iinfo(data.dtype).min + 1\n")
+mut("c05_jagged_offsets_reversed", "C05", "armi/bookkeeping/db/database.py",
+    '        attrs["offsets"] = arrayData.offsets\n', '        attrs["offsets"] = arrayData.offsets[::-1]\n')
+mut("c05_flag_remap_ignores_order", "C05", "armi/reactor/composites.py",
+    "        if all(i == j for i, j in zip(flagOrderPassed, flagOrderNow)):\n", "        if True:\n")
+mut("c05_dict_nan_to_zero", "C05", "armi/bookkeeping/db/database.py",
+    "                {key: value for key, value in zip(keys, d) if not np.isnan(value)}\n", "                {key: value for key, value in zip(keys, d)}\n")
+mut("c05_jagged_empty_not_none", "C05", "armi/bookkeeping/db/jaggedArray.py",
+    "        numElements = len(shapeIndices) + len(self.nones)\n", "        numElements = len(shapeIndices) + len(self.nones) - (1 if len(self.nones) > 2 else 0)\n")
+mut("c05_unsigned_fix_reverted", "C05", "armi/bookkeeping/db/layout.py",
+    "    elif np.issubdtype(data.dtype, np.unsignedinteger):\n        isNone = data == np.iinfo(data.dtype).max - 2\n", "")
+mut("c05_str_bytes_not_decoded_in_nones", "C05", "armi/bookkeeping/db/layout.py",
+    '        isNone = data == "<!None!>"\n', '        isNone = data == "<!None!>"\n        data = np.char.upper(data)\n')
+
+
 def run(names, tier):
     res = []
     for name, prop, path, old, new, count in M:
